@@ -33,6 +33,7 @@ type Engine struct {
 
 	purePatterns []*regexp.Regexp
 	pureText     []string
+	effPatterns  []*regexp.Regexp
 	pureMemo     map[*ssa.Function]int // 0 unknown, 1 computing, 2 pure, 3 impure
 	pureWhy      map[*ssa.Function]string
 
@@ -118,8 +119,11 @@ func (e *Engine) LoadContracts(specsDir string) {
 	e.contracts = NewContractSet()
 	e.contracts.LoadRepoContracts(e.repo, "Havoc")
 	e.contracts.LoadSpecsDir(specsDir)
-	// assume-pure lists
+	loadStable(filepath.Join(specsDir, "stable.txt"))
+	// assume-pure lists (*.pure) and heap-neutral effects (*.effect)
 	ms, _ := filepath.Glob(filepath.Join(specsDir, "*.pure"))
+	ms2, _ := filepath.Glob(filepath.Join(specsDir, "*.effect"))
+	ms = append(ms, ms2...)
 	for _, m := range ms {
 		b, err := os.ReadFile(m)
 		if err != nil {
@@ -132,11 +136,45 @@ func (e *Engine) LoadContracts(specsDir string) {
 			}
 			for _, w := range strings.Fields(l) {
 				rx := "^" + strings.ReplaceAll(regexp.QuoteMeta(w), `\*`, `.*`) + "$"
+				if strings.HasSuffix(m, ".effect") {
+					e.effPatterns = append(e.effPatterns, regexp.MustCompile(rx))
+					continue
+				}
 				e.purePatterns = append(e.purePatterns, regexp.MustCompile(rx))
 				e.pureText = append(e.pureText, w)
 			}
 		}
 	}
+}
+
+func loadStable(path string) {
+	b, err := os.ReadFile(path)
+	if err != nil {
+		return
+	}
+	for _, l := range strings.Split(string(b), "\n") {
+		l = strings.TrimSpace(l)
+		if l == "" || strings.HasPrefix(l, "#") {
+			continue
+		}
+		f := strings.Fields(l)
+		if len(f) >= 2 {
+			p := f[1]
+			if p == "." {
+				p = ""
+			}
+			stableDecl[f[0]] = append(stableDecl[f[0]], p)
+		}
+	}
+}
+
+func (e *Engine) isHeapNeutralEffect(key string) bool {
+	for _, p := range e.effPatterns {
+		if p.MatchString(key) {
+			return true
+		}
+	}
+	return false
 }
 
 func (e *Engine) isAssumedPure(key string) bool {
@@ -342,6 +380,9 @@ func (e *Engine) loopHeaderText(fn *ssa.Function, li *loopInfo) (string, int) {
 			if _, isDbg := ins.(*ssa.DebugRef); isDbg {
 				continue
 			}
+			if _, isPhi := ins.(*ssa.Phi); isPhi {
+				continue
+			}
 			p := ins.Pos()
 			if !p.IsValid() {
 				continue
@@ -377,10 +418,8 @@ func (e *Engine) loopHeaderText(fn *ssa.Function, li *loopInfo) (string, int) {
 			c.Body = &ast.BlockStmt{}
 			printer.Fprint(&sb, e.fset, &c)
 		}
-		s := sb.String()
-		if i := strings.Index(s, "{"); i >= 0 {
-			s = s[:i]
-		}
+		s := strings.TrimSpace(sb.String())
+		s = regexp.MustCompile(`\s*\{\s*\}\s*$`).ReplaceAllString(s, "")
 		return normHeader(s)
 	}
 	bt := text(best)
@@ -406,6 +445,8 @@ type FuncResult struct {
 	SpecErrs []string
 	Pre      []*Term
 	BaseFacts []*Term
+	AssumeBlk []int
+	anc       [][]bool // anc[b][a]: block a can reach block b in the back-edge-free CFG (or a == b)
 	Contract *Contract
 	Sweep    bool
 	Instrs   int
@@ -425,14 +466,24 @@ func (e *Engine) Generate(fname string, sweep bool) (*FuncResult, error) {
 		loops: map[*ssa.BasicBlock]*loopInfo{}, rpoIdx: map[*ssa.BasicBlock]int{}, names: map[string]int{}, notes: map[string]bool{},
 		params: map[string]*Val{}, varAt: map[string]ssa.Value{}, cutPhi: map[*ssa.Phi]*Val{}, closures: map[int]*closureInfo{},
 		tupleAddrs: map[ssa.Value]map[int]*AddrInfo{}, deferArgs: map[*ssa.Defer][]*Val{}, rangeOver: map[*ssa.Range]*Val{},
-		str2bytes: map[int]*Term{}, lockKeys: map[LeafKey][]lockUse{}}
+		str2bytes: map[int]*Term{}, lockKeys: map[LeafKey][]lockUse{}, obligedAt: map[int][]*ssa.BasicBlock{}, localRefs: map[int]bool{}, globalsSeen: map[int]bool{}}
 	if g.con != nil && g.con.Trusted {
 		return &FuncResult{Name: fname, Contract: g.con}, nil
 	}
-	baseFactHook = func(t *Term) { g.baseFacts = append(g.baseFacts, t) }
+	baseFactHook = func(t *Term) {
+		if g.dry > 0 {
+			return
+		}
+		if g.factCapture != nil && mentionsBound(t) {
+			*g.factCapture = append(*g.factCapture, t)
+			return
+		}
+		g.baseFacts = append(g.baseFacts, t)
+	}
 	g.run()
 	baseFactHook = nil
-	r := &FuncResult{Name: fname, Obligs: g.obligs, Assumes: g.assumes, Contract: g.con, Sweep: sweep, SpecErrs: g.specErrors, Pre: g.preTerms, BaseFacts: g.baseFacts}
+	r := &FuncResult{Name: fname, Obligs: g.obligs, Assumes: g.assumes, Contract: g.con, Sweep: sweep, SpecErrs: g.specErrors, Pre: g.preTerms, BaseFacts: g.baseFacts, AssumeBlk: g.assumeBlk}
+	r.computeAncestors(fn)
 	for n := range g.notes {
 		r.Notes = append(r.Notes, n)
 	}
@@ -461,4 +512,55 @@ func shortFunc(s string) string {
 		return s[i+1:]
 	}
 	return s
+}
+
+var boundMemo = map[int]bool{}
+
+// mentionsBound: does t mention a contract-level bound variable (named k.*)?
+func mentionsBound(t *Term) bool {
+	if v, ok := boundMemo[t.id]; ok {
+		return v
+	}
+	r := false
+	if t.Op == "var" && strings.HasPrefix(t.Name, "k.") {
+		r = true
+	}
+	for _, a := range t.Args {
+		if r {
+			break
+		}
+		if mentionsBound(a) {
+			r = true
+		}
+	}
+	boundMemo[t.id] = r
+	return r
+}
+
+func (r *FuncResult) computeAncestors(fn *ssa.Function) {
+	n := len(fn.Blocks)
+	r.anc = make([][]bool, n)
+	// process in an order where preds (ignoring back edges) come first: use
+	// repeated relaxation (n is small enough)
+	for i := range r.anc {
+		r.anc[i] = make([]bool, n)
+		r.anc[i][i] = true
+	}
+	changed := true
+	for changed {
+		changed = false
+		for _, b := range fn.Blocks {
+			for _, p := range b.Preds {
+				if b.Dominates(p) { // back edge
+					continue
+				}
+				for a := 0; a < n; a++ {
+					if r.anc[p.Index][a] && !r.anc[b.Index][a] {
+						r.anc[b.Index][a] = true
+						changed = true
+					}
+				}
+			}
+		}
+	}
 }
